@@ -804,7 +804,7 @@ fn gen_transport(run: &mut Run, prop: &str, seed: u64, thorough: bool) {
                 }
                 let res_s = if res == "ring" { "fb(ring,default)" } else { res };
                 let cfg = TransportCfg { name: (*n).into(), res_i: res_s.into(), res_r: if res == "ring" && rep % 2 == 0 { "default".into() } else { res_s.into() }, seed: r.next(), steps: if thorough { 120 } else { 60 } };
-                if matches!(prop, "C01" | "C02" | "C04" | "C05" | "C09" | "C15" | "C14" | "C19" | "C10" | "C11" | "C07" | "C06" | "C20" | "C17") {
+                if matches!(prop, "C16" | "C01" | "C02" | "C04" | "C05" | "C09" | "C15" | "C14" | "C19" | "C10" | "C11" | "C07" | "C06" | "C20" | "C17") {
                     let mut sc = Sc::new();
                     run_transport(&cfg, &mut sc);
                     run.add("transport", format!("{prop} transport {n} {res} #{rep}"), sc);
